@@ -19,6 +19,7 @@ Oracle, per connection and direction, all from the statement:
     packet, in order).
 """
 import time as time_mod
+import random as random_mod
 import itertools
 
 from vf.core import exc_key, Inconclusive
@@ -45,6 +46,8 @@ HOST = net.host()       # a loopback address of this process alone (see vf/net.p
 def body(pid, n):
     """n unique-looking bytes for packet pid: header with the id, then a pattern that depends on id and offset"""
     head = b"<%05d:%07d>" % (pid, n)
+    if n == 0:
+        return b""
     if n <= len(head):
         return (b"%05d" % pid)[-n:] if n < 5 else head[:n]
     # printable ASCII only: the base stacks turn a received packet into a message with .decode('ascii')
@@ -221,6 +224,9 @@ def loopback_case(ctx, rng, idx):
             n = rng.randint(20000, 300000)
         elif r < 0.5:
             n = rng.randint(1, 12)
+            if r >= 0.47:
+                n = 0               # a packet without any bytes: nothing to deliver, and nothing to hold up what follows it
+                ctx.hit("empty_packets_queued")
         else:
             n = rng.randint(13, 64)
         sizes.append(n)
@@ -376,6 +382,8 @@ def loopback_case(ctx, rng, idx):
                                   wit(), client=i, server_socket_received=len(up_wire), server_entries=len(s.handler.ixes),
                                   left_in_rxbs=[len(ix.rxbs) for ix in s.handler.ixes.values()],
                                   **cmp_wit("queued", up_q, "packets", up_pkts)))
+            if ok_final:
+                server_farewell(ctx, net, loop, desc, wit, random_mod.Random(repr(("farewell", idx, sizes[:8], nclients))))
             nontrivial = all(net.to_server[i] and net.to_client[i] for i in range(nclients)) and \
                 (partial["client"] + partial["server"] > 0)
             if partial["client"]:
@@ -394,6 +402,79 @@ def loopback_case(ctx, rng, idx):
     finally:
         ctx.case(("loopback", nclients, sbuf, cbuf, sizes, loop.trace[:200]), nontrivial=nontrivial)
         net.close()
+
+
+def server_farewell(ctx, net, loop, desc, wit, rng):
+    """the server stack sends its last packets to some of the clients that are still there, flushes them and closes the
+    connection; the client stack is serviced only afterwards, so it meets the last bytes and the end of the connection in
+    one pass.  Then the same client stack is reopened and connects again: what it is sent in its second life arrives on
+    its own."""
+    s = net.server
+    staying = [i for i in range(len(net.clients)) if net.ca(i) is not None and not net.clients[i].handler.cutoff]
+    chosen = [i for i in staying if rng.random() < 0.6]
+    for i in chosen:
+        c = net.clients[i]
+        ca = net.ca(i)
+        for _ in range(rng.randint(1, 3)):
+            net.queue_down(i, rng.randint(1, 40))
+        for _ in range(8):
+            loop.call("S.serviceTxPkts", s.serviceTxPkts)
+            loop.call("S.handler.serviceTxesAllIx", s.handler.serviceTxesAllIx)
+        ix = s.handler.ixes.get(ca)
+        if ix is None or ix.txes or s.txPkts:
+            continue
+        loop.call("S.closeConnection(C%d)" % i, lambda ca=ca: s.closeConnection(ca))
+        ctx.hit("server_closed_right_after_its_last_packets")
+        time_mod.sleep(0.002)
+        for k in range(400):
+            loop.call("C%d.serviceAll" % i, c.serviceAll)
+            if c.handler.cutoff and k >= 2:
+                break
+            time_mod.sleep(0.0005 if k < 40 else 0.005)
+        if not c.handler.cutoff:
+            ctx.hit("server_farewell_end_not_seen_by_client_in_time")
+            continue
+        for _ in range(3):
+            loop.call("C%d.serviceAll" % i, c.serviceAll)
+        ctx.hit("server_farewell_judged")
+        up_q, up_wire, up_pkts, dn_q, dn_wire, dn_pkts = net.views(i)
+        ok = ctx.check(dn_wire == dn_q and dn_pkts == dn_wire, "TcpClientStack/rx/last-bytes-before-close-not-in-a-packet",
+                       "bytes the server sent right before closing the connection were received but not delivered in a received packet",
+                       lambda: dict(wit(), client=i, client_socket_received=len(dn_wire), left_in_rxbs=len(c.rxbs),
+                                    **cmp_wit("queued", dn_q, "packets", dn_pkts)))
+        if not ok or rng.random() < 0.3:
+            continue
+        # second life
+        known = set(s.handler.ixes)
+        loop.call("C%d.reopen" % i, c.reopen)
+        ca2 = [None]
+
+        def again():
+            fresh = [a for a in s.handler.ixes if a not in known]
+            if c.handler.connected and not c.handler.cutoff and fresh and c.handler.ca in fresh:
+                ca2[0] = c.handler.ca
+                return True
+            return False
+        r = loop.until(again, [("S.serviceConnects", s.serviceConnects), ("C%d.serviceConnect" % i, c.serviceConnect)], 200)
+        if r is None:
+            ctx.hit("second_life_not_connected")
+            continue
+        before_q, before_pkts, before_wire = len(dn_q), len(dn_pkts), len(dn_wire)
+        for _ in range(rng.randint(1, 4)):
+            net.queue_down(i, rng.randint(1, 40))
+        want = b"".join(net.to_client[i])[before_q:]
+
+        def arrived():
+            return len(net.cwl[i].rxbytes) - before_wire >= len(want)
+        loop.until(arrived, [("S.serviceAll", s.serviceAll), ("C%d.serviceAll" % i, c.serviceAll)], 400)
+        for _ in range(3):
+            loop.call("C%d.serviceAll" % i, c.serviceAll)
+        up_q, up_wire, up_pkts, dn_q, dn_wire, dn_pkts = net.views(i)
+        ctx.hit("second_life_judged")
+        ctx.check(dn_wire[before_wire:] == want and dn_pkts[before_pkts:] == dn_wire[before_wire:],
+                  "TcpClientStack/rx/second-connection-packets-not-what-was-sent-on-it",
+                  "after the client stack was reopened and connected again, the packets it delivered are not the bytes sent on the new connection",
+                  lambda: dict(wit(), client=i, **cmp_wit("queued_on_second_connection", want, "packets", dn_pkts[before_pkts:])))
 
 
 # ---------------------------------------------------------------- doubles
@@ -584,3 +665,6 @@ def run(ctx):
     ctx.floor("distinct_nontrivial", ctx.pick(2000, 10000))
     ctx.floor("same_packet_object_queued_more_than_once", ctx.pick(20, 600))
     ctx.floor("farewell_judged", ctx.pick(20, 600))
+    ctx.floor("server_farewell_judged", ctx.pick(10, 300))
+    ctx.floor("second_life_judged", ctx.pick(5, 150))
+    ctx.floor("empty_packets_queued", ctx.pick(30, 1000))
